@@ -5,7 +5,7 @@
    lib/loop_job.c, lib/util.c clock).  `fixed' = the tree with fixes/C09-*.patch, `as_found' = commit 6c47408. *)
 From Coq Require Import ZArith List Bool Sorted.
 Require Import Verif.gen.Consts_looptimer Verif.HeapModel Verif.HeapProofs Verif.LoopTimerModel
-               Verif.LoopTimerArith Verif.LoopTimerWitness Verif.LoopTimerProofs.
+               Verif.LoopTimerArith Verif.LoopTimerWitness Verif.LoopTimerProofs Verif.LoopTimerStrong Verif.LoopTimerOrder Verif.LoopTimerOrderWitness.
 Import ListNotations.
 Local Open Scope Z_scope.
 
@@ -38,7 +38,7 @@ Proof. exact ex_heap. Qed.
 
 (* single operations on any heap satisfying the invariant (what the loop layer uses) *)
 Theorem C09_heap_add : forall h t, hinv h -> (forall u, mem (ents h) u -> t_id u <> t_id t) ->
-  exists h', heap_add h t = Some h' /\ hinv h' /\ length (ents h') = S (length (ents h)) /\
+  exists h', heap_add h t = Some h' /\ hinv h' /\ length (ents h') = Datatypes.S (length (ents h)) /\
              (forall u, mem (ents h') u <-> (mem (ents h) u \/ u = t)).
 Proof. exact heap_add_ok. Qed.
 Print Assumptions C09_heap_add.
@@ -193,24 +193,103 @@ Example C09_fixed_witnesses :
   hd (ENote 0) (out (run fixed [] init0 w_rerun)) = EPoll 0 1001002.
 Proof. exact (conj (proj1 timeout_fixed_witness) (conj (proj2 timeout_fixed_witness) rerun_fixed_witness)). Qed.
 
+(* ---------------------------------------------------------------- loop level: consistency, no assert fails *)
+(* END TO END, repaired code (the three C09 fixes and fixes/C08-timer-del-forged-handle.patch), ALL histories
+   (any API calls with any handle values, any callback behaviours, priorities in the enum, uint64_t durations):
+   in every reachable state - also in the middle of callbacks - `Sp [] st' holds: err = false (no assert() of
+   tlist.h or loop_timerlist.c failed, no model loop ran out of fuel), the heap invariant (order + back pointers),
+   every heap entry belongs to exactly one ACTIVE slot that points back to it and vice versa, every timer item on
+   a job list is a JOBLIST slot of that priority and is listed once. *)
+Theorem C09_consistent_all_histories : forall beh ops hz0 clk0 cstep0,
+  wf2_beh beh -> Forall wf2_op ops -> LoopTimerStrong.S (run fixed beh (lp_init hz0 clk0 cstep0) ops).
+Proof. exact consistent_all_histories. Qed.
+Print Assumptions C09_consistent_all_histories.
+
+Theorem C09_no_assert_fails : forall beh ops hz0 clk0 cstep0,
+  wf2_beh beh -> Forall wf2_op ops ->
+  let st := run fixed beh (lp_init hz0 clk0 cstep0) ops in
+  err st = false /\ heap_ok (ents (heap st)) /\ bp_ok (heap st).
+Proof. exact (fun beh ops hz0 clk0 cstep0 hb ho =>
+  let H := consistent_all_histories beh ops hz0 clk0 cstep0 hb ho in
+  conj (s_err _ _ H) (conj (proj1 (s_hinv _ _ H)) (proj2 (s_hinv _ _ H)))). Qed.
+Print Assumptions C09_no_assert_fails.
+
+(* without the zero-check test the invariant is false: a forged handle used inside a callback leaves a heap entry
+   whose slot is EMPTY, and the assert of make_job_from_tmo fails when it expires *)
+Theorem C09_consistent_refuted :
+  let st := run fx_without_chk0 w_forged_beh init0 w_forged in
+  err st = false /\ map t_data (ents (heap st)) = [1; 0] /\ map s_state (slots st) = [LT_ENTRY_ACTIVE; LT_ENTRY_EMPTY] /\
+  In (ENote 2) (out st) /\ err (run fx_without_chk0 w_forged_beh init0 w_forged2) = true.
+Proof. exact forged_handle_refuted. Qed.
+Print Assumptions C09_consistent_refuted.
+
+Example C09_consistent_example :
+  let st := run fixed w_forged_beh init0 w_forged2 in
+  err st = false /\
+  filter (fun e => match e with ECb _ _ _ => true | _ => false end) (rev (out st)) = [ECb 0 2 2001003; ECb 0 4 16001007].
+Proof. exact forged_handle_fixed_witness. Qed.
+
+(* ---------------------------------------------------------------- expiry order within a priority *)
+(* END TO END, repaired code, ALL histories: `ev_exps p' lists, in the order the callbacks ran, the expiry times
+   (clock at add + duration asked, as unbounded integers) of the timer callbacks of priority p.  It is
+   non-decreasing: timers of the same priority are dispatched in the order of their expiry times - across turns,
+   runs, deletions, additions from inside callbacks, for every 64-bit duration. *)
+Theorem C09_expiry_order : forall beh ops hz0 clk0 cstep0 p,
+  0 < hz0 -> 0 < clk0 <= LT_UINT64_MAX -> wf2_beh beh -> Forall wf2_op ops -> vp p ->
+  StronglySorted Z.le (ev_exps p (rev (out (run fixed beh (lp_init hz0 clk0 cstep0) ops)))).
+Proof. exact expiry_order_all_histories. Qed.
+Print Assumptions C09_expiry_order.
+
+Example C09_expiry_order_example :
+  ev_exps 1 (rev (out (run fixed ex_beh (lp_init (hz_of_res 4000000) 1000 3) ex_ops))) = [3001000; 4001006; 52001017] /\
+  ev_exps 2 (rev (out (run fixed [] init0 w_order))) = [1001000].
+Proof. exact order_example. Qed.
+
+(* the code as found: a timer whose expiry wrapped runs before one that expires 2^64 ns earlier *)
+Theorem C09_expiry_order_refuted :
+  ev_exps 2 (rev (out (run as_found [] init0 w_order))) = [18446744073709552610; 1001000] /\
+  ~ StronglySorted Z.le (ev_exps 2 (rev (out (run as_found [] init0 w_order)))).
+Proof. exact order_as_found_refuted. Qed.
+Print Assumptions C09_expiry_order_refuted.
+
 (* ---------------------------------------------------------------- the queries *)
 (* time-remaining / is-running / expire-time agree, in any state: is_running <> 0 exactly when expire_time_get <> 0;
    a slot that is not ACTIVE (never used, deleted, expired-and-queued, dispatched) answers 0 to all three; an
    ACTIVE slot answers its expire_time, "running", and max 0 (expire_time - clock).  Formal reading of "non-zero
    exactly while pending": between expiry and the loop turn that moves the timer to the job list the time
    remaining is already 0 while is_running still holds; once queued or dispatched or deleted all are 0. *)
-Theorem C09_queries_agree : forall st h,
-  (is_running st h = 1 <-> expire_time_get st h > 0) /\
-  (is_running st h = 0 <-> expire_time_get st h <= 0) /\
-  (forall i s, timer_from_handle st h = LOk i s -> s_state s <> LT_ENTRY_ACTIVE ->
-     expire_time_get st h = 0 /\ is_running st h = 0 /\ fst (time_remaining st h) = 0) /\
-  (forall i s tm, timer_from_handle st h = LOk i s -> s_state s = LT_ENTRY_ACTIVE -> s_th s = Some tm -> 0 < t_exp tm ->
-     expire_time_get st h = t_exp tm /\ is_running st h = 1 /\
-     fst (time_remaining st h) = Z.max 0 (t_exp tm - clk st)) /\
-  (forall e, timer_from_handle st h = LErr e ->
-     expire_time_get st h = 0 /\ is_running st h = 0 /\ fst (time_remaining st h) = 0).
+Theorem C09_queries_agree : forall fx st h,
+  (is_running fx st h = 1 <-> expire_time_get fx st h > 0) /\
+  (is_running fx st h = 0 <-> expire_time_get fx st h <= 0) /\
+  (forall i s, timer_from_handle fx st h = LOk i s -> s_state s <> LT_ENTRY_ACTIVE ->
+     expire_time_get fx st h = 0 /\ is_running fx st h = 0 /\ fst (time_remaining fx st h) = 0) /\
+  (forall i s tm, timer_from_handle fx st h = LOk i s -> s_state s = LT_ENTRY_ACTIVE -> s_th s = Some tm -> 0 < t_exp tm ->
+     expire_time_get fx st h = t_exp tm /\ is_running fx st h = 1 /\
+     fst (time_remaining fx st h) = Z.max 0 (t_exp tm - clk st)) /\
+  (forall e, timer_from_handle fx st h = LErr e ->
+     expire_time_get fx st h = 0 /\ is_running fx st h = 0 /\ fst (time_remaining fx st h) = 0).
 Proof. exact queries_agree. Qed.
 Print Assumptions C09_queries_agree.
+
+(* END TO END, repaired code, ALL histories, every handle value: is_running is 1 exactly when the handle resolves
+   to a slot whose timer is still in the heap; then expire_time_get is that timer's expiry
+   = min (add + duration, 2^64 - 1) > 0 and the time remaining is max 0 (expiry - clock); otherwise (stale or
+   never-issued handle, deleted, expired-and-queued, dispatched) all three queries answer 0; time remaining > 0
+   implies running. *)
+Theorem C09_queries_all_histories : forall beh ops hz0 clk0 cstep0 h,
+  0 < hz0 -> 0 < clk0 <= LT_UINT64_MAX -> wf2_beh beh -> Forall wf2_op ops ->
+  let st := run fixed beh (lp_init hz0 clk0 cstep0) ops in
+  (is_running fixed st h = 1 \/ is_running fixed st h = 0) /\
+  (is_running fixed st h = 1 <->
+     exists i s, timer_from_handle fixed st h = LOk i s /\ s_state s = LT_ENTRY_ACTIVE) /\
+  (is_running fixed st h = 1 ->
+     exists tm, mem (ents (heap st)) tm /\ t_exp tm = Z.min (t_add tm + t_dur tm) LT_UINT64_MAX /\ 0 < t_exp tm /\
+                expire_time_get fixed st h = t_exp tm /\
+                fst (time_remaining fixed st h) = Z.max 0 (t_exp tm - clk st)) /\
+  (is_running fixed st h = 0 -> expire_time_get fixed st h = 0 /\ fst (time_remaining fixed st h) = 0) /\
+  (fst (time_remaining fixed st h) > 0 -> is_running fixed st h = 1).
+Proof. exact queries_all_histories. Qed.
+Print Assumptions C09_queries_all_histories.
 
 (* repaired code: every expire_time computed at a positive clock is positive, for every 64-bit duration, so a
    pending timer is never reported "not running" *)
@@ -221,7 +300,7 @@ Print Assumptions C09_expire_time_positive.
 (* is_running as found: now + duration = 2^64 gives expire_time 0, reported "not running" while pending *)
 Theorem C09_is_running_refuted :
   let st := run as_found [] init0 [Cb (CAdd 2 (two64 - 1000) 1 7)] in
-  is_running st (nth 0 (issued st) 0) = 0 /\ ents (heap st) <> [].
+  is_running as_found st (nth 0 (issued st) 0) = 0 /\ ents (heap st) <> [].
 Proof. exact is_running_as_found_refuted. Qed.
 Print Assumptions C09_is_running_refuted.
 
